@@ -112,7 +112,7 @@ def rbAllowed (phase : Nat) : List String :=
   -- widening reads, so it is not observed
   if phase = 1 then ["w", "r", "full", "rbreload", "rbend", "punch", "rbabort", "rbfinish"]
   else if phase = 5 then ["w", "r", "full", "rbend"]   -- after an interrupted rebuild
-  else ["w", "r", "full", "holes", "loc", "meta", "imeta", "apply", "lunmap", "lunmapw", "rbpromote", "rbend", "cands", "punch", "cmp", "csnap", "killq", "crevert"]
+  else ["w", "r", "full", "holes", "loc", "meta", "imeta", "apply", "lunmap", "lunmapw", "rbpromote", "rbpromotew", "rbend", "cands", "punch", "cmp", "csnap", "killq", "crevert"]
 
 partial def loop (h : IO.FS.Stream) (out : IO.FS.Stream) (r : Rep) : IO Unit := do
   let line ← h.getLine
@@ -143,6 +143,18 @@ partial def loop (h : IO.FS.Stream) (out : IO.FS.Stream) (r : Rep) : IO Unit := 
       | .ok => do out.putStrLn "ok"; loop h out { r1 with dd := r.dd.lunmapAfter r1.dd, rb := 4 }
       | _ => do out.putStrLn "inadmissible"; loop h out r
     | _, _, _ => out.putStrLn "bad-op"; loop h out r
+  | ["rbpromotew", a, b, c] =>   -- the promotion, then a foreground write before the replica cleared its rebuilding flag
+    match a.toNat?, b.toNat?, c.toNat? with
+    | some off, some len, some tag =>
+      if r.rb ≠ 4 ∨ !r.isOpen ∨ !r.inVolume off len then do out.putStrLn "inadmissible"; loop h out r else
+      let (r1, o1) := r.step .rbPromote
+      let (r2, o2) := r1.step (.write off len tag)
+      match o1, o2 with
+      | .ok, .ok => do out.putStrLn "ok"; loop h out r2
+      | _, _ => do out.putStrLn "inadmissible"; loop h out r
+    | _, _, _ => out.putStrLn "bad-op"; loop h out r
+  | ["shrinkb", _] =>   -- a size inside the last block below the current one: a shrink, refused, nothing changes
+    do out.putStrLn "refused"; loop h out r
   | ["rbabort"] =>   -- the rebuild is interrupted before the transfer: the newcomer stays WO, never readable
     if r.rb ≠ 1 then do out.putStrLn "inadmissible"; loop h out r else
     do out.putStrLn "aborted newcomer=WO"; loop h out { r with rb := 5 }
